@@ -187,6 +187,19 @@ class Repo:
             if len(moved) == 1:
                 self.moved_anchors[spec] = moved[0].fullname
                 return moved[0]
+        if len(hits) == 0 and ':' in spec and q.count('.') == 0:
+            # a module-level function that was moved to another module (and, usually, imported back):
+            # accept it if its name is still unique among the module-level functions of the package
+            moved = [f for f in self.funcs.values() if f.qualname == q]
+            if len(moved) == 1:
+                self.moved_anchors[spec] = moved[0].fullname
+                return moved[0]
+        if len(hits) == 0:
+            from . import roles
+            found = roles.relocate(self, spec)
+            if found is not None:
+                self.moved_anchors[spec] = found.fullname
+                return found
         if len(hits) != 1:
             raise AnalysisError(
                 f"function anchor {spec!r}: {len(hits)} candidates "
